@@ -1477,7 +1477,7 @@ PROPS.update({
     "C04": dict(gen=gen_C04, configs=["dev", "rel"], judge=judge_mbi_full, check_model_ub=True,
                 assumptions=["known finding F18 (VBEModeInfo.memory_model byte not in 0..=7) is excluded from 'decodes every field'"]),
     "C05": dict(gen=gen_C05, configs=["dev", "rel"], judge=judge_mbi_full, both_placements=True, assumptions=[]),
-    "C17": dict(gen=gen_C17, configs=["dev", "rel"], judge=judge_projection(["load", "get", "cmdline", "bootloader", "modinfo", "module", "modules", "ctor", "as_bytes", "pstr"]),
+    "C17": dict(gen=gen_C17, configs=["dev", "rel"], judge=judge_projection(["load", "get", "cmdline", "bootloader", "modinfo", "module", "modules", "ctor", "as_bytes", "pstr", "debug"]),
                 both_placements=True, assumptions=["Rust &str arguments are valid UTF-8 by the type's invariant"]),
     "C18": dict(gen=gen_C18, configs=["dev", "rel"], judge=judge_projection(["load", "get", "efi_mmap", "efi_desc", "efi_end", "efi_nth", "efi_count", "efi_dbg"]),
                 both_placements=True, assumptions=[]),
